@@ -914,7 +914,14 @@ func (sc *scenario) run(maxOps int) {
 				now -= S.Interval // some candidates are then in the future
 			}
 			nb := sc.genNeighbours(n, now)
-			v, _ := w.Sync(n, now, nb)
+			var v *trace.Verdict
+			if r.Intn(5) == 0 && sc.profile != "offgrid" {
+				// the node's own tick runs to completion while the round waits for its first answer
+				last := n.Chain.LastBlockTimestamp()
+				v, _ = w.SyncTick(n, now, nb, pick(r, []int64{last + S.Interval, last + S.Interval, last + S.Interval, last, last + 2*S.Interval}))
+			} else {
+				v, _ = w.Sync(n, now, nb)
+			}
 			m := v.Info["sync"]
 			if m == "extension" || m == "resync" || m == "tipswap" {
 				sc.mark("adopted")
@@ -1365,6 +1372,70 @@ func (sc *scenario) runLongPrefix() {
 	}
 }
 
+// profiles "shape" (C04) and "alias" (C12), structured part: three honest nodes share one long chain (lengths around
+// Go's allocation size classes); one produces the next block; another is offered, in both orders, the neighbour that is
+// one block ahead and the neighbour that is level with it — the candidate of the first must survive the verification
+// (probe block included) of the second.
+func (sc *scenario) runOneAhead() {
+	r := sc.rng
+	w := sc.w
+	S := w.S
+	a, b, c := w.Nodes[0], w.Nodes[1], w.Nodes[2]
+	L := pick(r, []int{4 + r.Intn(12), 16 + r.Intn(17), 34, 35, 38, 41, 65, 66, 70})
+	sc.clock = T0
+	w.Tick(a, sc.clock)
+	for len(a.AllBlocks()) < L && w.Continue() {
+		if r.Intn(8) == 0 {
+			if tx, _ := sc.makeTx(a, "valid"); tx != nil {
+				if w.Submit(a, tx).Info["submit"] == "admitted" {
+					sc.mark("admitted")
+				}
+			}
+		}
+		sc.clock += S.Interval
+		if v := w.Tick(a, sc.clock); v.Info["included"] != "0" && v.Info["included"] != "" {
+			sc.mark("block-with-tx")
+		}
+	}
+	for _, f := range []*node.Node{b, c} {
+		w.Tick(f, T0)
+		if sc.catchUp(f, a, sc.clock, 3+ceilDiv(L, int(S.BlocksLimit)-1)) > 3+ceilDiv(L, int(S.BlocksLimit)-1) {
+			return
+		}
+	}
+	sc.mark("adopted")
+	nodes := []*node.Node{a, b, c}
+	for round := 0; round < 3 && w.Continue(); round++ {
+		ahead, level, host := nodes[round%3], nodes[(round+1)%3], nodes[(round+2)%3]
+		sc.clock += S.Interval
+		w.Tick(ahead, sc.clock)
+		na, nl := trace.Honest(ahead), trace.Honest(level)
+		na.Target, nl.Target = "ahead", "level"
+		nb := []trace.Neighbour{na, nl}
+		if round == 1 || r.Intn(3) == 0 {
+			nb = []trace.Neighbour{nl, na}
+		}
+		if r.Intn(3) == 0 {
+			n2 := trace.Honest(level)
+			n2.Target = "level2"
+			nb = append(nb, n2)
+		}
+		w.Sync(host, sc.clock, nb)
+		for h := len(host.AllBlocks()) - 2; h <= len(host.AllBlocks()); h++ {
+			if h >= 0 {
+				w.Read(host, uint64(h))
+			}
+		}
+		if !sameChain(host, ahead) {
+			sc.catchUp(host, ahead, sc.clock, 3)
+		}
+		sc.catchUp(level, ahead, sc.clock, 3)
+		if !sameChain(host, ahead) || !sameChain(level, ahead) {
+			return
+		}
+	}
+}
+
 // profile "fork" (C06), competing tips: three nodes share a chain of every small length, each produces its own tip at
 // the same timestamp, then every node is offered the two other tips (both valid) in a random order, possibly with a
 // neighbour that is rejected after its first block — the incremental path with several candidates built on ONE
@@ -1397,6 +1468,13 @@ func (sc *scenario) runTips() {
 	for round := 0; round < 3 && w.Continue(); round++ {
 		sc.clock += S.Interval
 		for _, n := range nodes {
+			if r.Intn(2) == 0 { // a tip with effects of its own: a spend, a fee, possibly a new income
+				if tx, _ := sc.makeTx(n, pick(r, []string{"valid", "valid", "yield-new"})); tx != nil {
+					if w.Submit(n, tx).Info["submit"] == "admitted" {
+						sc.mark("admitted")
+					}
+				}
+			}
 			w.Tick(n, sc.clock) // competing tips on the shared chain
 		}
 		for _, host := range nodes {
@@ -1417,7 +1495,14 @@ func (sc *scenario) runTips() {
 				}
 			}
 			r.Shuffle(len(nb), func(i, j int) { nb[i], nb[j] = nb[j], nb[i] })
-			if v, _ := w.Sync(host, sc.clock, nb); v != nil {
+			var v *trace.Verdict
+			if r.Intn(3) == 0 {
+				// the host's next block is produced while the round (which would swap its tip) waits
+				v, _ = w.SyncTick(host, sc.clock, nb, sc.clock+S.Interval)
+			} else {
+				v, _ = w.Sync(host, sc.clock, nb)
+			}
+			if v != nil {
 				if m := v.Info["sync"]; m == "tipswap" || m == "extension" {
 					sc.mark("adopted")
 				}
@@ -1579,6 +1664,10 @@ func main() {
 		case "fork", "alias":
 			nn = 3
 		}
+		oneAhead := (*profile == "shape" || *profile == "alias") && rng.Intn(8) == 0
+		if oneAhead {
+			nn = 3
+		}
 		var validators []int
 		for k := 0; k < nn; k++ {
 			validators = append(validators, k%5)
@@ -1590,6 +1679,12 @@ func main() {
 		}
 		sc := &scenario{w: w, rng: rng, profile: *profile, nontriv: map[string]bool{}}
 		ops := 10 + rng.Intn(*maxOps-9)
+		switch {
+		case oneAhead:
+			sc.runOneAhead()
+			w.Close()
+			goto done
+		}
 		switch *profile {
 		case "agree":
 			sc.runAgree(ops / 3)
@@ -1616,6 +1711,7 @@ func main() {
 			sc.run(ops)
 		}
 		w.Close()
+	done:
 		sum.Scenarios++
 		sum.Evaluations += w.Ops
 		for k, v := range w.Hist {
